@@ -41,11 +41,13 @@ class Stats:
     s.decisions = 0
     s.concretisations = 0
     s.max_decisions_on_a_path = 0
+    s.cross_ok = 0
+    s.cross_unknown = 0
 
   def as_dict(s):
     return dict(solver_checks=s.solver_checks, solver_s=round(s.solver_s, 3), paths=s.paths,
                 decisions=s.decisions, concretisations=s.concretisations,
-                max_decisions_on_a_path=s.max_decisions_on_a_path)
+                max_decisions_on_a_path=s.max_decisions_on_a_path, cvc5_confirmed_unsat=s.cross_ok, cvc5_no_answer=s.cross_unknown)
 
 
 STATS = Stats()
